@@ -38,6 +38,12 @@ def random_family(rng, n):
             # the writer writes the same name twice with something in between
             n = rng.choice(["A", "B"])
             progs["t1"] = [acc("W", n), acc(rng.choice(["R", "W"]), "B" if n == "A" else "A"), acc("W", n)]
+        if rng.random() < 0.25:
+            # hand-over after a failure: t1 fails while t3 queues for the same cache as a writer and t2 reads it
+            n = rng.choice(["A", "B"])
+            progs["t1"] = [acc(rng.choice(["WF", "W"]), n)] + ([acc("RF", n)] if rng.random() < 0.5 else [acc("WF", n)])
+            progs["t3"] = [acc("W", n)] + ([acc(rng.choice(["R", "W"]), n)] if rng.random() < 0.5 else [])
+            progs["t2"] = [acc("R", n)] + ([acc("R", n)] if rng.random() < 0.5 else [])
         fam.append(progs)
     return fam
 
@@ -51,6 +57,62 @@ def write_gen_module(wd, fam):
     lines += ["}", "===="]
     with open(os.path.join(wd, "CacheMgrGen.tla"), "w") as f:
         f.write("\n".join(lines) + "\n")
+
+
+WIT_FAMILY = """
+WitFamily == {
+  [t1 |-> <<W("A")>>,          t2 |-> <<R("A")>>,          t3 |-> <<W("A")>>],
+  [t1 |-> <<WF("A")>>,         t2 |-> <<R("A")>>,          t3 |-> <<W("A")>>],
+  [t1 |-> <<W("A"), RF("A")>>, t2 |-> <<R("A"), R("A")>>,  t3 |-> <<W("A")>>],
+  [t1 |-> <<W("B"), WF("A")>>, t2 |-> <<R("A")>>,          t3 |-> <<W("A"), R("A")>>],
+  [t1 |-> <<W("A")>>,          t2 |-> <<R("A"), R("B")>>,  t3 |-> <<R("A"), W("A")>>]
+}
+\\* schedules worth forcing on the real manager: (1) a writer and somebody else inside callbacks of the same name at
+\\* the same time (on different objects, in a correct manager); (2) a reader about to try the lock of an object that
+\\* has been discarded since it looked it up; (3) a writer that obtained the lock of a discarded object
+WitCond == \\/ \\E t, u \\in Tx : t # u /\\ inCb[t] # NoObj /\\ inCb[u] # NoObj /\\ Acc(t).name = Acc(u).name /\\ ~Acc(t).ro
+           \\/ \\E t \\in Tx : pc[t] = "tryR" /\\ exist[t] # NoObj /\\ scrapped[exist[t]]
+           \\/ \\E t \\in Tx : pc[t] = "chk" /\\ ~Acc(t).ro /\\ exist[t] # NoObj /\\ scrapped[exist[t]]
+Witness == WitCond => PrintT("BEHAVIOUR " \\o ToJson([progs |-> Progs, cfail |-> cfail, hist |-> hist]))
+"""
+
+
+def witnesses(seed, maxsize, name, cap):
+    """Exhaustive TLC search (breadth first) over a few small program triples; every reachable state that satisfies
+    one of the scenario predicates prints the shortest behaviour that reaches it (a prefix: the replay lets the
+    transactions finish freely afterwards)."""
+    import subprocess
+    wd = vlib.subdir("wit-" + name)
+    vlib._stage_spec(wd)
+    with open(os.path.join(wd, "CacheMgrWit.tla"), "w") as f:
+        f.write("---- MODULE CacheMgrWit ----\nEXTENDS CacheMgrMC\n" + WIT_FAMILY.replace("\\\\", "\\") + "====\n")
+    cfg = open(os.path.join(wd, "CacheMgr.sim.cfg")).read()
+    cfg = (cfg.replace("ProgFamily <- SimFamily", "ProgFamily <- WitFamily").replace("MaxSize = 3", f"MaxSize = {maxsize}")
+           .replace("SPECIFICATION SimSpec", "SPECIFICATION Spec").replace("INVARIANTS PrintBehaviour", "INVARIANTS Witness\nVIEW view"))
+    open(os.path.join(wd, "Wit.cfg"), "w").write(cfg)
+    cmd = vlib._tlc_cmd(heap="6g") + ["-workers", "4", "-metadir", os.path.join(wd, "md"), "-config", "Wit.cfg", "CacheMgrWit.tla"]
+    try:
+        p = subprocess.run(cmd, cwd=wd, capture_output=True, text=True, timeout=1500)
+    except subprocess.TimeoutExpired:
+        raise Inconclusive("TLC witness search timeout (CacheMgr)")
+    out = p.stdout + p.stderr
+    if "Model checking completed" not in out:
+        raise Inconclusive("CacheMgr witness search failed:\n" + out[-1500:])
+    res, seen = [], set()
+    for line in out.splitlines():
+        if line.startswith('"BEHAVIOUR '):
+            js = line[len('"BEHAVIOUR '):].rstrip()
+            if js.endswith('"'):
+                js = js[:-1]
+            js = js.replace('\\"', '"')
+            if js not in seen:
+                seen.add(js)
+                res.append(js)
+    if not res:
+        raise Inconclusive("CacheMgr witness search produced nothing")
+    rng = random.Random(seed)
+    rng.shuffle(res)
+    return res[:cap], len(res)
 
 
 def simulate(seed, maxsize, fam, num, name):
@@ -108,6 +170,11 @@ def c11(res, tier, seed, replay):
         for ms, spec_ms in ((-1, 99), (0, 0), (3, 3)):
             fam = random_family(rng, nfam)
             jobs.append((f"ms{spec_ms}", ms, simulate(seed, spec_ms, fam, num, f"ms{spec_ms}")))
+        # scenario witnesses found by exhaustive search instead of by chance
+        for ms, spec_ms in ((-1, 99), (3, 3)):
+            wit, total = witnesses(seed, spec_ms, f"wit{spec_ms}", 300 if tier == "quick" else 3000)
+            res.coverage.setdefault("scenario_witnesses", {})[f"maxsize {ms}"] = {"reachable": total, "replayed": len(wit)}
+            jobs.append((f"wit{spec_ms}", ms, wit))
     tot_drift = 0
     for name, ms, behs in jobs:
         bf = os.path.join(vlib.subdir("traces"), f"cache-{name}.behaviours")
